@@ -92,7 +92,7 @@ func VerifH_C07_RedisAsyncStoreOwnsKey() {
 // buffer after the entry's lock was given up (ownership ghost), and never returns the other key's bytes.
 func VerifH_C07_GetVersusRelease() {
 	verifrt.Unwind(60)
-	verifrt.SchedBound(2)
+	verifrt.SchedBound(2 + verifrt.Tier) // thorough: one more deviation from the default schedule
 	verifrt.PreemptSync()
 	verifrt.NoTimers()
 	c := &MemoryCache{}
